@@ -282,15 +282,32 @@ def build_same_name(layout, order, with_first=True, with_second=True, where=0):
         return "".join("namespace %s { " % x for x in path) + body + " }" * len(path)
     t1 = "template<T> class Box { Box(T a); T first() const; };"
     t2 = "template<T> class Box { Box(); void second(T b) const; static int Count(); };"
-    if where:
-        tds = ["namespace %s { %s }" % ((n1 or n2)[0], " ".join(tds))] if tds else []
-    parts = tds[:] if where != 2 else []
-    if with_first:
-        parts.append(block(n1, t1) if n1 else t1)
-    if with_second:
-        parts.append(block(n2, t2) if n2 else t2)
-    if where == 2:
-        parts += tds
+    b1 = (block(n1, t1) if n1 else t1) if with_first else ""
+    b2 = (block(n2, t2) if n2 else t2) if with_second else ""
+    if where and tds:
+        # inside the outermost namespace block of one of the templates — the SAME block, so that a name read relative to
+        # it would find that block's template: `namespace gtsam { typedef Box<int> BoxB; template<T> class Box {...}; }`
+        tdtext = " ".join(tds)
+        host = 1 if (n1 and with_first) else (2 if (n2 and with_second) else 0)
+        if host == 0:
+            tds = ["namespace %s { %s }" % ((n1 or n2)[0], tdtext)]
+            where = 1 if where == 1 else 2
+            parts = (tds if where == 1 else []) + [x for x in (b1, b2) if x] + (tds if where == 2 else [])
+        else:
+            b = b1 if host == 1 else b2
+            if where == 1:
+                k = b.index("{") + 1
+                b = b[:k] + " " + tdtext + b[k:]
+            else:
+                k = b.rindex("}")
+                b = b[:k] + tdtext + " " + b[k:]
+            if host == 1:
+                b1 = b
+            else:
+                b2 = b
+            parts = [x for x in (b1, b2) if x]
+    else:
+        parts = tds[:] + [x for x in (b1, b2) if x]
     want = {}
     if with_first:
         want["BoxA"] = ("%sBox<double>" % q1, ["first"], [""] + list(n1))
